@@ -168,6 +168,24 @@ func runC03(c *Ctx) {
 			}
 			return false
 		}
+		// the added transactions cover the whole new branch: they are collected in the insert loop (which visits every new
+		// block), not in one of the walk loops (the lock-step walk misses the blocks above the old head's height)
+		if len(added) == 1 {
+			okCover, whyCover := false, "the new-branch transactions are not collected in the loop that inserts the new chain"
+			var insSite ssa.CallInstruction
+			for _, s0 := range callSites(rg, `^BlockChain\.insert$`) {
+				insSite = s0
+			}
+			if ai, isI := added[0].(ssa.Instruction); isI && insSite != nil {
+				if p0, isPhi := indexPhiOfArg(insSite.Common().Args[1]); isPhi {
+					h := p0.Block()
+					if h.Dominates(ai.Block()) && (ai.Block() == h || reaches(ai.Block(), h, nil)) {
+						okCover, whyCover = true, ""
+					}
+				}
+			}
+			c.Ob("C03-R2", "reorg: the added transactions are collected for every block of the new chain (in the insert loop)", c.FnPos(rg), okCover, whyCover)
+		}
 		c.Ob("C03-R2", "reorg: dropped transactions are collected in both walk loops and added ones in the insert loop", c.FnPos(rg),
 			nDropSites == 2 && len(added) == 1 && newBlocksAcc != nil, fmt.Sprintf("%d sites appending old-branch transactions, %d appending new-branch transactions", nDropSites, len(added)))
 		var ins, lk ssa.CallInstruction
